@@ -10,7 +10,7 @@ import (
 )
 
 func init() {
-	register("C01", "Lexing and parsing are total: (R1) lexer index safety — abstract interpretation of package lexer (Zone difference bounds x Karr affine equalities over the cursor cells, integer SSA values and string lengths, callees inlined) proves 0 <= index < len / 0 <= low <= high <= len for every index and slice expression on every path, from the invariant 0 <= start <= end <= len(Input) which every return of ReadToken re-establishes; (R2) every lexer loop advances a cursor or induction variable by at least one per iteration, and every token other than EOF consumes at least one byte; (R3) the parser's sticky error is written only where it is known to be nil; (R4) every parser loop has, on each of its cycles, an exit that is taken when an error is recorded; (R5) every iteration of every parser loop, and every callback of the repetition helpers, consumes a token or records an error (must-analysis with the kind of the look-ahead token as context); (R6) every recursion cycle of the parser passes a call that lies under the true result of a consuming predicate, or a re-entrancy latch — depth is bounded by consumed tokens; (R7) at every lexer error the reported line is >= 1 and the column >= 1.", runC01)
+	register("C01", "Lexing and parsing are total: (R1) lexer index safety — abstract interpretation of package lexer (Zone difference bounds x Karr affine equalities over the cursor cells, integer SSA values and string lengths, callees inlined) proves 0 <= index < len / 0 <= low <= high <= len for every index and slice expression on every path, from the invariant 0 <= start <= end <= len(Input) which every return of ReadToken re-establishes; (R2) every lexer loop advances a cursor or induction variable by at least one per iteration, and every token other than EOF consumes at least one byte; (R3) the parser's sticky error is written only where it is known to be nil; (R4) every parser loop has, on each of its cycles, an exit that is taken when an error is recorded; (R5) every iteration of every parser loop, and every callback of the repetition helpers, consumes a token or records an error (must-analysis with the kind of the look-ahead token as context); (R6) every recursion cycle of the parser passes a call that lies under the true result of a consuming predicate, or a re-entrancy latch — depth is bounded by consumed tokens; (R7) at every lexer error the reported line is >= 1 and the column >= 1. (R8) the line start is assigned after the whole line terminator, also through helpers (C04.R2).", runC01)
 }
 
 // lexerEngine builds the engine for package lexer and runs it from ReadToken under the type invariant.
@@ -148,6 +148,8 @@ func runC01(c *Ctx) {
 		}
 	}
 	c.Extra["c01_abstract_steps"] = e.steps
+	r8 := c.Rule("R8", "the line start is assigned after the whole line terminator (columns stay inside the line)", 4)
+	c04LineState(c, r8)
 	c.Trusted = append(c.Trusted, "contracts: utf8.DecodeRuneInString(s) returns 0 <= w <= len(s) and w >= 1 when len(s) >= 1; strings.Split with a non-empty separator returns at least one element; range over a string yields valid byte indices")
 	c.Assume("a Lexer is used through New and ReadToken only: its cursor cells satisfy 0 <= start <= end <= len(Input) before every call (the invariant is re-established at every return)")
 
